@@ -36,6 +36,10 @@ pub struct Ctx {
     pub sym_ing: OnceLock<[u32; 5]>,
     /// C23 reference revalidation
     pub retain_refs: std::sync::atomic::AtomicBool,
+    /// C08: remember the salsa id of every interned handle (sym type, idx, gen) so that handles
+    /// held by validated memos can be read back later
+    pub keep_handles: std::sync::atomic::AtomicBool,
+    pub handles: Mutex<std::collections::HashMap<(u8, u32, u32), salsa::Id>>,
     pub retained: Mutex<Vec<(usize, u16, u32)>>,
 }
 
@@ -57,6 +61,8 @@ impl Ctx {
             ent_ing: OnceLock::new(),
             sym_ing: OnceLock::new(),
             retain_refs: std::sync::atomic::AtomicBool::new(false),
+            keep_handles: std::sync::atomic::AtomicBool::new(false),
+            handles: Mutex::new(Default::default()),
             retained: Mutex::new(Vec::new()),
         })
     }
@@ -715,6 +721,18 @@ pub fn ent_field<'db>(db: &'db dyn Hdb, e: Ent<'db>, f: Fld) -> u16 {
     }
 }
 
+/// Reads the field of an interned handle through its id (top level, outside any query).
+pub fn read_sym(db: &dyn Hdb, s: Sym, id: salsa::Id) -> u16 {
+    use salsa::plumbing::FromId;
+    match s {
+        Sym::K1 => SymK1::from_id(id).v(db).0,
+        Sym::K2 => SymK2::from_id(id).v(db).0,
+        Sym::K3 => SymK3::from_id(id).v(db).0,
+        Sym::Imm => SymImm::from_id(id).v(db).0,
+        Sym::R => SymR::from_id(id).v(db),
+    }
+}
+
 pub fn intern_sym<'db>(db: &'db dyn Hdb, s: Sym, v: u16) -> (salsa::Id, u16) {
     match s {
         Sym::K1 => {
@@ -866,6 +884,12 @@ fn eval<'db>(db: &'db dyn Hdb, e: &Expr, cx: &Cx<'db>) -> u16 {
         Expr::Intern(s, e) => {
             let v = eval(db, e, cx);
             let (id, back) = intern_sym(db, *s, v);
+            if ctx.keep_handles.load(Ordering::Relaxed) {
+                ctx.handles
+                    .lock()
+                    .unwrap()
+                    .insert((*s as u8, id.index(), id.generation()), id);
+            }
             ctx.log
                 .push(Rec::Interned(*s as u8, v, id.index(), id.generation()));
             ctx.log.push(Rec::Read(
@@ -879,6 +903,12 @@ fn eval<'db>(db: &'db dyn Hdb, e: &Expr, cx: &Cx<'db>) -> u16 {
             let v = eval(db, e, cx);
             let h = SymK1::new(db, KHash(v));
             let id = h.as_id();
+            if ctx.keep_handles.load(Ordering::Relaxed) {
+                ctx.handles
+                    .lock()
+                    .unwrap()
+                    .insert((Sym::K1 as u8, id.index(), id.generation()), id);
+            }
             ctx.log
                 .push(Rec::Interned(Sym::K1 as u8, v, id.index(), id.generation()));
             let r = q_on_sym(db, h).v;
